@@ -81,7 +81,7 @@ def _read_map_fits(healsparse_class, filename, nside_coverage=None, pixels=None,
             healsparse_map = healsparse_class.make_empty(
                 nside_coverage,
                 hdr['NSIDE'],
-                data[0][signal_column].dtype.type,
+                data[signal_column].dtype.type,
                 sentinel=sentinel
             )
             if hdr['ORDERING'] == 'RING':
